@@ -95,6 +95,7 @@ def run_mode_program(prog: dict) -> dict:
         inv_driver.proj = old
     rets = [ev for ev in tr["ev"] if ev["e"] == "RET"]
     c = dict(prog["case"])
+    c["_oplog"] = tr.get("oplog", [])
     if "what" in c:
         c.update(kind="limit", setok=bool(rets[1].get("ok")), getok=bool(rets[2].get("ok")), got=-1)
         v = rets[2].get("val") or {}
@@ -210,6 +211,9 @@ def check(prop: str, tier: str, seed: int) -> int:
     for c in res:
         if c["status"] != "ok":
             raise engine.MachineryError("mode program did not finish")
+    from . import checks_sim
+    checks_sim.model_check(run, tier)
+    checks_sim.validate_logs(run, [lg for c in res for lg in c.pop("_oplog", [])], sample=150 if quick else 3000, seed=seed)
     live = [c for c in res if c["kind"] == "limit" or c.get("offered")]
     allc = cases + live
     verdicts = judge(run, allc)
